@@ -355,8 +355,8 @@ impl Rasn {
 
 fn parse_rust_derive_annotation(input: &str) -> nom::IResult<&str, Vec<&str>> {
     use nom::{
-        bytes::complete::tag,
-        character::complete::{alphanumeric1, char, multispace0},
+        bytes::complete::{tag, take_while1},
+        character::complete::{char, multispace0},
         multi::{many0, separated_list1},
         sequence::delimited,
         Parser as _,
@@ -374,7 +374,11 @@ fn parse_rust_derive_annotation(input: &str) -> nom::IResult<&str, Vec<&str>> {
             char('('),
             multispace0,
         ),
-        separated_list1(many0((multispace0, char(','), multispace0)), alphanumeric1),
+        // a derive macro is named by a path: `Serialize`, `serde::Serialize`, `Serialize_repr`
+        separated_list1(
+            many0((multispace0, char(','), multispace0)),
+            take_while1(|c: char| c.is_alphanumeric() || c == '_' || c == ':'),
+        ),
         (multispace0, char(')'), multispace0, char(']')),
     )
     .parse(input)
